@@ -936,6 +936,27 @@ theorem read_entry_points_return_fresh {st st' : St} {c : XApi} (h : stepXApi st
     ∀ g ∈ st'.gos.drop st.gos.length, ∀ a, goRoot g = some a → st.mem.length ≤ a :=
   stepXApi_fresh h
 
+/-- **The slice `ValueSet.Values`, `Value.AsValueSlice` of a set and `PathSet.List` answer is
+the caller's**: one new Go-data register, nil or a slice over an array allocated by this call
+and caller-owned in the heap the call leaves — writing its cells is a respectful caller
+action; the set that was read is in no write set (`read_entry_points_write_nothing`). -/
+theorem values_results_are_callers {st st' : St} {c : XApi}
+    (hc : (∃ g p, c = .vsValues g p) ∨ (∃ v p, c = .valValues v p) ∨ (∃ g, c = .psList g))
+    (h : stepXApi st c = some st') :
+    ∃ g, st'.gos = st.gos ++ [g] ∧
+      ∀ x, goRoot g = some x → st.mem.length ≤ x ∧ ownerOf st'.mem x = some .caller := by
+  have key : ∀ {a ordered perm wrap}, collectValues st a ordered perm wrap = some st' →
+      ∃ g, st'.gos = st.gos ++ [g] ∧
+        ∀ x, goRoot g = some x → st.mem.length ≤ x ∧ ownerOf st'.mem x = some .caller := by
+    intro a ordered perm wrap he
+    obtain ⟨g, hg, ho⟩ := collectValues_owned he
+    obtain ⟨_, g', hg', hf⟩ := collectValues_fresh he
+    have : g' = g := by rw [hg] at hg'; simpa using hg'.symm
+    subst this
+    exact ⟨g', hg, fun x hx => ⟨hf x hx, ho x hx⟩⟩
+  rcases hc with ⟨g, p, rfl⟩ | ⟨v, p, rfl⟩ | ⟨g, rfl⟩ <;> simp only [stepXApi] at h <;> split at h
+  all_goals first | exact key h | cases h
+
 /-- **`UnmarkDeepWithPaths` returns COPIES**: every Go-data register the call creates is a
 path or a mark set whose object was allocated by the call AND belongs to the caller in the
 heap the call leaves — so `pvm[i].Marks[k] = …` and `pvm[i].Path[j] = …` on them are
